@@ -678,7 +678,11 @@ func runR110(c *Ctx) {
 							if o := calleeObj(call); o != nil && o.Name() == "Read" {
 								k, isK := constInt(b.Y)
 								key := fnm + "|EOF with data"
-								if isK && (b.Op == token.GTR && k == 0 || b.Op == token.NEQ && k == 0 || b.Op == token.GEQ && k == 1) {
+								// the test must separate `no byte` from `at least one byte`, whichever way it is written
+								// (n > 0, n != 0, n >= 1, or the guard-clause forms n <= 0, n == 0, n < 1)
+								splitsAtOne := isK && (k == 0 && (b.Op == token.GTR || b.Op == token.NEQ || b.Op == token.LEQ || b.Op == token.EQL) ||
+									k == 1 && (b.Op == token.GEQ || b.Op == token.LSS))
+								if splitsAtOne {
 									c.ok(key, p.instrPos(t), "deferred whenever a byte was read")
 								} else if isK {
 									c.bad(key, p.instrPos(t), fmt.Sprintf("the byte count of a Read is tested as `n %s %d`: a read that returns one last byte together with io.EOF loses that byte", b.Op, k))
